@@ -347,6 +347,23 @@ pub fn check_one(ctx: &mut Ctx, version: u8, code_idx: usize, calls: &[usize], s
         }
     }
     if sinks {
+        // sinks that gather: whatever the serializer offers in one vectored call, only k bytes are taken
+        let head_len = out.windows(4).position(|w| w == b"\r\n\r\n").map(|p| p + 4).unwrap_or(out.len());
+        for k in [1usize, 7, head_len.saturating_sub(1).max(1), head_len, head_len + 1, head_len + 3, out.len().saturating_sub(1).max(1), out.len(), usize::MAX] {
+            let mut sink = GatherSink { out: Vec::new(), k, vectored_calls: 0 };
+            let w = guarded(|| r.write_all(&mut sink));
+            ctx.rep.count("gather_sink_writes");
+            if !matches!(w, Ok(Ok(()))) || sink.out != out {
+                ctx.rep.violation(
+                    "C05:split-sink",
+                    format!("sink with write_vectored taking {} bytes per call: result {:?}, {} bytes instead of {} ({} vectored calls)", k, w.map(|r| r.map_err(|e| e.to_string())), sink.out.len(), out.len(), sink.vectored_calls),
+                    case_json(version, code_idx, calls),
+                );
+                return None;
+            }
+        }
+    }
+    if sinks {
         // a sink that fails after k bytes (peer gone, buffer too small): the call reports the error, and the
         // bytes of the NEXT serialization (of this or any response, same thread) are not affected by it
         let head_len = out.windows(4).position(|w| w == b"\r\n\r\n").map(|p| p + 4).unwrap_or(out.len());
@@ -382,6 +399,39 @@ pub fn check_one(ctx: &mut Ctx, version: u8, code_idx: usize, calls: &[usize], s
         }
     }
     Some(out)
+}
+
+/// A sink with real scatter/gather support: one `write_vectored` call takes at most `k` bytes, walking
+/// through the slices in order (so a call may end inside the second or a later slice).
+struct GatherSink {
+    out: Vec<u8>,
+    k: usize,
+    vectored_calls: usize,
+}
+impl Write for GatherSink {
+    fn write(&mut self, buf: &[u8]) -> std::io::Result<usize> {
+        let n = self.k.min(buf.len());
+        self.out.extend_from_slice(&buf[..n]);
+        Ok(n)
+    }
+    fn write_vectored(&mut self, bufs: &[std::io::IoSlice<'_>]) -> std::io::Result<usize> {
+        self.vectored_calls += 1;
+        let mut room = self.k;
+        let mut n = 0;
+        for b in bufs {
+            let t = room.min(b.len());
+            self.out.extend_from_slice(&b[..t]);
+            n += t;
+            room -= t;
+            if room == 0 {
+                break;
+            }
+        }
+        Ok(n)
+    }
+    fn flush(&mut self) -> std::io::Result<()> {
+        Ok(())
+    }
 }
 
 /// A sink that accepts `room` bytes in total and then fails with EPIPE.
